@@ -183,6 +183,26 @@ def run(ck, prog, tier, load):
             ok = ok and uses_prev
             det = "appended under local _%s, carried local _%s, derives from both the entry and the previous name: %s" % (key_local, carried, uses_prev)
         ck.ob("C18-e.from-drain-reuses-name", "HeaderMap::from_drain", ok, c, None, "the name an entry is appended under is also the name carried to the next entry, and it falls back to the previous name (%s)" % det)
+    # every iterator of the map that claims ExactSizeIterator gives an exact hint on every path: ExactSizeIterator::len()
+    # asserts upper == Some(lower), so an open upper bound is a panic for the caller
+    exact = [i for i in prog.impls if str(i.get("trait", "")).endswith("ExactSizeIterator") and "actix_http::header::map::" in str(i.get("self", ""))]
+    ck.anchor("C18-c", len(exact), 3, "ExactSizeIterator impls in header/map.rs")
+    for i_ in exact:
+        ty = i_["self"].split("::")[-1]
+        shs = prog.find(r"^<actix_http::header::map::%s(<[^>]*>)? as core::iter::traits::iterator::Iterator>::size_hint$" % re_esc(ty.split("<")[0]))
+        if not shs:
+            ck.ob("C18-c.exact-size-hint", ty.split("<")[0], False, None, None, "%s implements ExactSizeIterator but does not override size_hint (the default is (0, None))" % ty)
+            continue
+        sh = shs[0]
+        ok = True
+        for bb, e in sh.ret_exprs():
+            if e[0] == "agg" and e[1] == "tuple" and len(e[3]) == 2:
+                ok = ok and is_agg(e[3][1], r"Option::Some$")
+            elif e[0] == "call" and rx(r"size_hint$").search(e[1] or ""):
+                ok = ok and bool(rx(r"(slice::iter::Iter|smallvec::IntoIter|smallvec::Drain|vec::IntoIter|hash_map::Keys|hash::map::Keys|hashbrown.*Keys|option::)").search(e[1] or "")) or ok and bool(rx(r"Iter|Keys|Drain").search(e[1] or ""))
+            else:
+                ok = False
+        ck.ob("C18-c.exact-size-hint", ty.split("<")[0], ok, sh, None, "size_hint() of %s has upper == Some(lower) on every path (a literal tuple with Some(..), or the hint of an exact-size std/smallvec iterator)" % ty)
 
 
 def re_esc(s):
